@@ -1,5 +1,6 @@
 import Tau.Proofs.Tokeniser
 import Tau.Pattern
+import Tau.Proofs.LoadTotal
 /-
   C04 — Loading arbitrary text returns a rule or an error, never a panic.
 
@@ -59,6 +60,51 @@ theorem intoIdentifier_no_panic (E : RegexEngine) (ic : Bool) (s : Str) :
   intro site h
   have := intoIdentifier_err E ic s _ h
   cases this
+
+/-- **The Pratt parser terminates on every token list.** The model's `parse` recurses on fuel
+    (`parseFuel ts = 10·|ts| + 10`) and returns the panic value when it runs out; this theorem shows it
+    never does: a successful `parse_expr` / `parse_nud` consumes at least one token
+    (`parse_consumes_aux`), so fuel `3·|ts| + 3` already bounds the depth of the mutual recursion
+    of parse / parse_expr / parse_led / parse_nud (`parse_total_aux`) — for ALL token lists,
+    well-formed or not (unbalanced parentheses, dangling operators, `not not not …`). -/
+theorem parse_no_panic (ts : List Token) : ∀ site, parse ts ≠ .error (.panic site) :=
+  Tau.parse_no_panic ts
+
+/-- Condition text → tree: tokenise, then parse; neither layer panics. -/
+theorem condition_no_panic (s : Str) : ∀ site,
+    (match tokenise s with | .error e => (Except.error e : Except Err Expr) | .ok ts => parse ts)
+      ≠ .error (.panic site) := by
+  intro site h
+  split at h
+  · rename_i e he; cases h; exact tokenise_no_panic s site he
+  · exact Tau.parse_no_panic _ site h
+
+/-- Mapping keys (`all(k)`, `of(k, n)`, `int(k)`, `not(k)`, plain, with blanks, garbage): every YAML
+    key, whether the value under it is a sequence or not. -/
+theorem parseKey_no_panic (k : Yaml) (vIsSeq : Bool) : ∀ site, parseKey k vIsSeq ≠ .error (.panic site) :=
+  Tau.parseKey_np k vIsSeq
+
+/-- **`parse_identifier` of EVERY YAML shape** (scalars, mappings, sequences, nested to any depth,
+    tagged values, any key and any string pattern, either build, any regex engine): a tree or an
+    error value. The model's one explicit panic value inside `parse_mapping` (a string pattern that
+    is neither a search nor a numeric comparison) is shown unreachable (`search_or_num`). -/
+theorem parseIdentifier_no_panic (E : RegexEngine) (ic : Bool) (y : Yaml) :
+    ∀ site, parseIdentifier E ic y ≠ .error (.panic site) :=
+  Tau.parseIdentifier_np E ic y
+
+/-- The detection block as a whole, any list of (name, YAML) entries. -/
+theorem loadDetection_no_panic (E : RegexEngine) (ic : Bool) (entries : List (Str × Yaml)) :
+    ∀ site, loadDetection E ic entries ≠ .error (.panic site) :=
+  Tau.loadDetection_np E ic entries
+
+/-- Non-vacuity: malformed token lists are parse ERRORS (values), at the fuel `parse` hands out. -/
+example :
+    parse [.lparen, .lparen, .ident ['A']] = .ok (.ident ['A']) ∧
+    parse [.miscNot, .miscNot, .miscNot] = .error .parseInvalidToken ∧
+    parse [.ident ['A'], .op .and] = .error .parseInvalidToken ∧
+    parse [.rparen] = .error .parseInvalidToken ∧
+    parse [] = .error .parseInvalidToken := by
+  refine ⟨by rfl, by rfl, by rfl, by rfl, by rfl⟩
 
 /-- The strings on which the unrepaired source panicked are now ordinary exact patterns. -/
 example (E : RegexEngine) :
